@@ -368,6 +368,10 @@ pub fn classify(ev: &Ev, cx: &mut Cx) -> node::Shape {
     cx.class_if(s.exotic, "enum-variant");
     cx.class_if(s.bytes, "bytes");
     cx.class_if(ev.props.iter().any(|p| matches!(p.val, PV::Error(ref c) if c.len() > 1)), "error-chain");
+    cx.class_if(
+        ev.props.iter().any(|p| matches!(p.val, PV::Error(ref c) if c.len() == 3 && crate::event::ChainErr::new(c).is_inline())),
+        "error-chain:three-links-holding-their-source-inline",
+    );
     cx.class_if(ev.props.iter().any(|p| matches!(p.val, PV::Node { cap: Cap::Serde, .. })), "capture-serde");
     cx.class_if(ev.props.iter().any(|p| matches!(p.val, PV::Node { cap: Cap::Sval, .. })), "capture-sval");
     cx.class_if(ev.props.iter().any(|p| matches!(p.val, PV::Node { cap: Cap::Display | Cap::Debug, .. })), "capture-text");
